@@ -663,6 +663,132 @@ def _c05_extra(ctx):
     sys.exit(2)
 
 
+def _c05_line_equal(real, model):
+    """concreq sessions: a lookup the model prints as `val a|b` (several admissible answers, Go's map iteration
+    decides) is matched by a real `val x` or `val x&y` (the answers seen in the passes of the executor) when every
+    real answer is admissible; everything else is plain equality"""
+    if real == model:
+        return True
+    rt, mt = real.split(" "), model.split(" ")
+    if len(rt) != 2 or len(mt) != 2 or rt[0] != "val" or mt[0] != "val":
+        return False
+    return set(rt[1].split("&")) <= set(mt[1].split("|"))
+
+
+def _c05_compare(sess, R, M):
+    return [i for i in range(len(sess)) if i >= len(R) or i >= len(M) or not _c05_line_equal(R[i], M[i])]
+
+
+def _c05_concreq_nontrivial(sess, real):
+    """a concreq session in which some request looked a type up (and got a value) that ANOTHER request maps,
+    i.e. the isolation of the request scopes is actually exercised"""
+    if not sess or not sess[0].startswith("NEW concreq"):
+        return False
+    mapped, looked = {}, {}
+    for l, r in zip(sess, real):
+        f = l.split()
+        if len(f) >= 4 and f[0] == "O":
+            if f[2] in ("m", "mt"):
+                mapped.setdefault(f[3], set()).add(f[1])
+            elif f[2] == "v" and r.startswith("val "):
+                looked.setdefault(f[3], set()).add(f[1])
+    return any(looked.get(t, set()) - {rid} for t, rids in mapped.items() for rid in rids) or \
+        any(len(rids) > 1 for rids in mapped.values())
+
+
+def _c05_stats(lines, sessions, R, M):
+    st = generic_stats(_c05_concreq_nontrivial,
+        "line protocol of C05: `concreq` sessions (harness/concreq.go) — N requests on one Flame, their micro-operations "
+        "(c.Map / c.Value / writer ops / Param / Params()[k]=v / Route.String / URLPath) interleaved as the session's "
+        "schedule says; observations compared with `Conc.solo` of the request machine (Model/ConcReq); non-trivial = two "
+        "requests map the same type, or one looks up (and finds) a type another one maps")(lines, sessions, R, M)
+    st["concreq_sessions"] = sum(1 for (a, b) in sessions if lines[a].startswith("NEW concreq"))
+    st["concreq_requests"] = sum(1 for l in lines if l.startswith("Q "))
+    st["concreq_observations"] = sum(1 for l in lines if l.startswith("O "))
+    st["concreq_lookups_with_several_admissible_values"] = sum(1 for m in M if m.startswith("val ") and "|" in m)
+    st["concreq_nontrivial_sessions"] = st["distinct_nontrivial"]
+    return st
+
+
+def _c05_concreq_race(ctx):
+    """the concreq sessions of this run once more, through the harness built with -race (its executor then also runs the
+    free-running, truly concurrent passes): every observation is compared with the model output of the correspondence
+    step; a race report, a runtime abort or a divergent observation is a violation."""
+    import json, os, subprocess
+    root, workdir = ctx["ROOT"], ctx["workdir"]
+    binp = os.path.join(root, "build", "harness-race")
+    ops_p, model_p = os.path.join(workdir, "ops.txt"), os.path.join(workdir, "model.txt")
+    cov = ctx["ev"]["coverage"]
+    if not (os.path.exists(binp) and os.path.exists(ops_p) and os.path.exists(model_p)):
+        cov["concreq_race_run"] = "skipped (no race binary or no correspondence output)"
+        return []
+    lines = open(ops_p).read().split("\n")
+    M = open(model_p).read().split("\n")
+    while lines and lines[-1] == "":
+        lines.pop()
+    starts = [i for i, l in enumerate(lines) if l.startswith("NEW ")] + [len(lines)]
+    sess = [(a, b) for a, b in zip(starts, starts[1:]) if lines[a].startswith("NEW concreq")]
+    if ctx["tier"] != "thorough":
+        sess = sess[ctx["seed"] % 3::3]          # quick: every third session (the race build is ~8x slower)
+    sub, subM = [], []
+    for a, b in sess:
+        sub += lines[a:b]
+        subM += M[a:b]
+    outdir = os.path.join(workdir, "concreq-race")
+    os.makedirs(outdir, exist_ok=True)
+    sub_p, real_p = os.path.join(outdir, "ops.txt"), os.path.join(outdir, "real.txt")
+    open(sub_p, "w").write("\n".join(sub) + "\n")
+    env = dict(os.environ, GORACE="halt_on_error=1 exitcode=66 log_path=%s" % os.path.join(outdir, "race"))
+    p = subprocess.run([binp, "exec", sub_p, real_p], env=env, stdout=subprocess.PIPE, stderr=subprocess.PIPE, text=True, timeout=1500)
+    reports = sorted(fn for fn in os.listdir(outdir) if fn.startswith("race"))
+    how = ("build/harness-race exec <ops> <out>  with GORACE='halt_on_error=1 log_path=<dir>/race' on the `ops` below (the "
+           "plain harness of --replay runs the lock-step pass only; the free-running passes need the -race build or "
+           "VERIF_CONCREQ_FREE=1; a goroutine schedule cannot be replayed deterministically)")
+    cov["concreq_race_run"] = {"sessions": len(sess), "lines": len(sub), "rc": p.returncode, "race_reports": len(reports)}
+    if reports or p.returncode == 66 or "fatal error: concurrent map" in p.stderr or "WARNING: DATA RACE" in p.stderr:
+        text = "".join(open(os.path.join(outdir, fn)).read() for fn in reports)[:20000] or p.stderr[:20000]
+        return [ctx["write_replay"](ctx["pid"], "race", {
+            "what": "the Go race detector / runtime reported unsynchronised access to framework state while the requests of a "
+                    "concreq session were served concurrently",
+            "race_report": text.split("\n"), "seed": ctx["seed"], "tier": ctx["tier"], "how_to_replay": how,
+            "ops": sub if len(sub) < 400 else sub[:400]})]
+    if p.returncode != 0:
+        print("BROKEN (machinery, not a verdict): harness-race exec exited %d: %s" % (p.returncode, p.stderr[-1500:]))
+        import sys
+        sys.exit(2)
+    R = open(real_p).read().split("\n")
+    pos = 0
+    for a, b in sess:
+        n = b - a
+        s_ops, s_R, s_M = sub[pos:pos + n], R[pos:pos + n], subM[pos:pos + n]
+        pos += n
+        bad = _c05_compare(s_ops, s_R, s_M)
+        if bad:
+            return [ctx["write_replay"](ctx["pid"], "counterexample", {
+                "what": "under true concurrency (harness built with -race, free-running passes) a request observed something "
+                        "other than what the same request observes when served alone (the model's `solo` run)",
+                "ops": s_ops, "real": s_R, "model": s_M, "diverging_lines": bad, "seed": ctx["seed"], "tier": ctx["tier"],
+                "how_to_replay": how})]
+    return []
+
+
+def _c05_extra_all(ctx):
+    """the whole-application race run (harness/conc.go), then the concreq sessions through the same -race binary"""
+    cov = ctx["ev"]["coverage"]
+    line_rule, line_evals = cov.get("rule"), cov.get("evaluations")
+    try:
+        v = _c05_extra(ctx)      # overwrites evaluations / distinct_nontrivial / rule with the counts of the race run
+    except SystemExit:
+        # the whole-application run gave up (e.g. its SERIAL outcome is not repeatable — itself a symptom of state
+        # leaking between requests): if the concreq sessions exhibit a concrete failing input, report that instead
+        v2 = _c05_concreq_race(ctx)
+        if v2:
+            return v2
+        raise
+    cov["concreq_rule"], cov["concreq_lines_compared"] = line_rule, line_evals
+    return v + _c05_concreq_race(ctx)
+
+
 PROPS["C05"] = {
     "technique": "Lean 4 theorems: race freedom from an access discipline (all executions), frame/isolation theorem over all "
                  "interleavings, and `decide`-checked theorems over the write footprint that a Go SSA flow analysis regenerates "
@@ -672,17 +798,26 @@ PROPS["C05"] = {
                   "(ii) footprint_disciplined & co.: every write that serving can perform, as extracted from the current source, "
                   "is request-local, inside the sync.Once closure of the written object, or a sync/atomic op; once-guarded fields "
                   "are read only after Do; library calls on shared objects are on a documented list; (iii) interleaving_serial: "
-                  "for every interleaving each request's record equals its solo record and the once caches hold only what they compute.",
+                  "for every interleaving each request's record equals its solo record and the once caches hold only what they compute; "
+                  "(iv) Props/C05Req: the same on the CONCRETE models — `reqMachine` (Model/ConcReq) interleaves the micro-operations "
+                  "(c.Map / c.Value on the injector scope chain of C04, the writer of C13, Params reads and stores, the once-guarded "
+                  "Route.String, Router.urlPath) of any number of requests: req_interleaving_serial, "
+                  "observations_depend_only_on_own_request, request_scope_invisible_to_others, writer_private (+ C13 per request), "
+                  "params_private, shared_config_unchanged, footprint_matches_machine (every request-local write site of the "
+                  "regenerated footprint is a documented component of the per-request record).",
     "level_note": "PARTIAL: Lean cannot exhibit the Go memory model or the scheduler — the theorems are about a model of executions and "
                   "about an extracted write footprint; the footprint extraction (translator/concfacts*.go: SSA flow analysis in a "
                   "set-up and a serve phase, reflection modelled as transparent, library code opaque) is trusted, as is its "
                   "classification of net/http's per-request (w, r) as request-local; application handlers are outside the claim; "
-                  "`serve` is abstract in the isolation theorem; the -race run is supporting evidence and the hunting ground for "
+                  "`serve` is abstract in the isolation theorem of Props/C05 and a list of micro-operations in Props/C05Req (tied to the code by the "
+                  "`concreq` sessions: lock-step interleavings on every run, free-running ones through the -race build); "
+                  "the -race run is supporting evidence and the hunting ground for "
                   "replays, not a proof. A footprint change with no observed race ends in no-failing-input-found.",
-    "props_modules": ["Flamego.Props.C05"],
+    "props_modules": ["Flamego.Props.C05", "Flamego.Props.C05Req"],
     "suite": "C05",
-    "stats": generic_stats(lambda sess, real: False,
-        "the line protocol carries one trivial session for C05; see concurrent_run for what was explored"),
+    "stats": _c05_stats,
+    "compare": _c05_compare,
+    "shrink_keep": ("R ", "Q "),      # the routes and the request declarations are the environment of a concreq session
     "known_match": no_known,
     "trusted_base": COMMON_TRUST + [
         "translator/concfacts*.go: the phase-sensitive flow analysis that extracts Gen/ConcFacts.lean (allocation-site x phase heap "
@@ -693,11 +828,14 @@ PROPS["C05"] = {
         "net/http's Handler contract: every ServeHTTP call gets its own ResponseWriter and *Request (classified request-local)",
         "the libraries listed in Props/C05.lean `documentedConcurrencySafe` are safe for concurrent use as documented "
         "(regexp.Regexp matching, charmbracelet/log.Logger, sync, sync/atomic, reflect inspection, http.Dir)",
-        "the Go race detector and scheduler (supporting evidence only)"],
+        "the Go race detector and scheduler (supporting evidence only)",
+        "Props/C05Req `ownerTable`: the documented list of per-request object kinds (a prefix of the footprint's write target); "
+        "concreq sessions: the bind parameters of a request are those the generator built its path from (routing itself is C01/C02), "
+        "reflect's Implements/Kind computed in the harness and sent to the model (as for C04)"],
     "assumptions": ["set-up (routes, middleware, mapped services) has finished before the first ServeHTTP and happens-before it",
                     "application handlers and application-supplied services synchronise their own state",
                     "handlers do not call the set-up API (Use/Get/Map on the Flame) while requests are served"],
-    "extra_check": _c05_extra,
+    "extra_check": _c05_extra_all,
     "leanchecker": True,
 }
 
